@@ -71,6 +71,25 @@ def build(reg):
     reg.lemma("wr_zero_without_edges", vars={"g": Gt, "i": INT, "t": Name, "h": REAL, "key": Key, "n": INT}, induct="n",
               stmt="implies(cnt(g, t, n) == 0, wr(g, i, t, h, key, n) == 0.0)", trigger="wr(g, i, t, h, key, n)")
     reg.lemma("wd_symmetric", vars={"g": Gt, "h": REAL, "a": INT, "b": INT, "n": INT}, induct="n", stmt="wd(g, h, (a, b), n) == wd(g, h, (b, a), n)", trigger="wd(g, h, (a, b), n)")
+    # ---- M-SUM for matrices: total mass and the mass of one row (first half of the key), assumed finite-map sum axioms
+    MT = DictT(Key, REAL); MASS = z3.Function("matrix_mass", MT.sort(), z3.RealSort()); ROW = z3.Function("row_mass", MT.sort(), JD.sort(), z3.RealSort())
+    d_ = z3.Const("d_", MT.sort()); k_ = z3.Const("k_", Key.sort()); v_ = z3.Real("v_"); a_ = z3.Const("a_", JD.sort())
+    upd = MT.mk(z3.Store(MT.dom(d_), k_, True), z3.Store(MT.val(d_), k_, v_)); oldv = z3.If(z3.Select(MT.dom(d_), k_), z3.Select(MT.val(d_), k_), 0)
+    reg.axioms += [("M-SUM.matrix.update", z3.ForAll([d_, k_, v_], MASS(upd) == MASS(d_) - oldv + v_, patterns=[MASS(upd)]), "sum over a finite map after one update"),
+                   ("M-SUM.matrix.empty", z3.ForAll([d_], z3.Implies(MT.dom(d_) == z3.K(Key.sort(), z3.BoolVal(False)), MASS(d_) == 0), patterns=[MASS(d_)]), "the empty map sums to 0"),
+                   ("M-SUM.row.update", z3.ForAll([d_, k_, v_, a_], ROW(upd, a_) == ROW(d_, a_) + z3.If(Key.fst(k_) == a_, v_ - oldv, 0), patterns=[ROW(upd, a_)]), "row sum (keys whose first half is a) after one update"),
+                   ("M-SUM.row.empty", z3.ForAll([d_, a_], z3.Implies(MT.dom(d_) == z3.K(Key.sort(), z3.BoolVal(False)), ROW(d_, a_) == 0), patterns=[ROW(d_, a_)]), "the empty map has empty rows")]
+    NS["matrix_mass"] = dict(smt=lambda ex, d: Val(REAL, MASS(d.z)), rt=lambda d: sum(d.values()))
+    NS["row_mass"] = dict(smt=lambda ex, d, a: Val(REAL, ROW(d.z, a.z)), rt=None)
+    EXU = f"dec(njd(g, {E}[0]), i)"; EXV = f"dec(njd(g, {E}[1]), i)"
+    reg.specfun("ends", [("g", Gt), ("i", INT), ("t", Name), ("a", JD), ("n", INT)], INT, base="0",
+                rec=f"ends(g, i, t, a, n - 1) + (((1 if {EXU} == a else 0) + (1 if {EXV} == a else 0)) if etop(g, {E}) == t else 0)")
+    # linear recurrences for the running mass / row mass (the products h * count are introduced once, by induction lemmas, not in the loop obligations)
+    reg.specfun("massr", [("g", Gt), ("t", Name), ("h", REAL), ("n", INT)], REAL, base="0.0", rec=f"massr(g, t, h, n - 1) + ((h + h) if etop(g, {E}) == t else 0.0)")
+    reg.specfun("rowr", [("g", Gt), ("i", INT), ("t", Name), ("h", REAL), ("a", JD), ("n", INT)], REAL, base="0.0",
+                rec=f"rowr(g, i, t, h, a, n - 1) + (((h if {EXU} == a else 0.0) + (h if {EXV} == a else 0.0)) if etop(g, {E}) == t else 0.0)")
+    reg.lemma("massr_is_2h_times_count", vars={"g": Gt, "t": Name, "h": REAL, "n": INT}, induct="n", stmt="massr(g, t, h, n) == (2 * h) * cnt(g, t, n)", trigger="massr(g, t, h, n)")
+    reg.lemma("rowr_is_h_times_ends", vars={"g": Gt, "i": INT, "t": Name, "h": REAL, "a": JD, "n": INT}, induct="n", stmt="rowr(g, i, t, h, a, n) == h * ends(g, i, t, a, n)", trigger="rowr(g, i, t, h, a, n)")
     # ---- classes
     mm = reg.module("gcmpy/tools/joint_excess_joint_degree_matrices.py")
     KEYS = DictT(Name, ListT(JD))
@@ -95,9 +114,15 @@ def build(reg):
          requires={"index": "0 <= i and i < T", "annotated": ANNOT, "counts": COUNTS, "counts_dom": CDOM},
          ensures={"exact": f"forall_elem(key, Key, result.get(key, 0.0) == wr(self._G, i, name, {H}, key, len(es(self._G))))",
                   "symmetric": "forall_elem(a, JD, forall_elem(b, JD, result.get(cat(a, b), 0.0) == result.get(cat(b, a), 0.0)))",
+                  "total_mass": f"matrix_mass(result) == (2 * ({H})) * cnt(self._G, name, len(es(self._G)))",
+                  "sums_to_one": "implies(cnt(self._G, name, len(es(self._G))) > 0, matrix_mass(result) == 1)",
+                  "row_sums_are_the_fraction_of_edge_ends_in_the_class": f"forall_elem(a, JD, row_mass(result, a) == ({H}) * ends(self._G, i, name, a, len(es(self._G))))",
                   "object_unchanged": "self == old(self)"},
          loops={0: dict(inv={"acc": f"forall_elem(key, Key, ejk.get(key, 0.0) == wr(self._G, i, name, {H}, key, IT))",
-                             "frame": "self == old(self)"})})
+                             "mass": f"matrix_mass(ejk) == massr(self._G, name, {H}, IT)",
+                             "rows": f"forall_elem(a, JD, row_mass(ejk, a) == rowr(self._G, i, name, {H}, a, IT))",
+                             "frame": "self == old(self)"},
+                        uses={"acc": ["frame"], "mass": ["frame"], "rows": ["frame"]})})
     m.fn("JointExcessJointDegree.get_ejks", params={"T": INT}, ghost=["T"], ret=MAT.ty,
          call_ghosts={"JointExcessJointDegree.get_ejk": {"T": "T"}},
          requires={"names_match_annotations": "len(self._topology_names) == T", "annotated": ANNOT,
